@@ -191,6 +191,13 @@ func (p *Peer) SendCheckpoint(index types.ChainIndex, n *consensus.Network, time
 			err = errors.New("checkpoint has wrong index")
 		} else if r.Block.V2.Commitment != r.State.Commitment(r.Block.MinerPayouts[0].Address, r.Block.Transactions, r.Block.V2Transactions()) {
 			err = errors.New("checkpoint has wrong commitment")
+		} else if r.State.Index.ID != r.Block.ParentID {
+			// NOTE: the commitment binds the block to *a* state, not to its
+			// parent's: applying the block to another state panics
+			err = errors.New("checkpoint state is not the parent of the checkpoint block")
+		} else if len(r.Block.Transactions) != 0 && r.State.Index.Height+1 >= n.HardforkV2.RequireHeight {
+			// NOTE: the checkpoint block is applied without a v1 supplement
+			err = errors.New("checkpoint block contains v1 transactions")
 		} else if r.Block.V2.Height != r.State.Index.Height+1 || index.Height != r.Block.V2.Height {
 			// NOTE: neither the block ID nor the commitment covers the height
 			// field or the value of the miner payout
